@@ -75,6 +75,25 @@ class Opaque(object):
         return 'Opaque(%s)' % self.why
 
 
+class SymKey(object):
+    """a symbolic value used as a dict key: hashes/compares by the text of its terms (syntactic identity);
+    semantic equality of symbolic keys is established by obligations when dicts are compared"""
+    __slots__ = ('v', 'k')
+
+    def __init__(self, v):
+        self.v = v
+        self.k = repr(v)
+
+    def __hash__(self):
+        return hash(self.k)
+
+    def __eq__(self, o):
+        return isinstance(o, SymKey) and o.k == self.k
+
+    def __repr__(self):
+        return 'SymKey(%s)' % self.k
+
+
 class OpaqueSeq(Opaque):
     """Unknown list/tuple whose LENGTH is tracked (term): enough to prove `while xs: ...; xs = xs[k:]` loops."""
     __slots__ = ('len',)
